@@ -4,7 +4,7 @@
 From Coq Require Import List Ascii NArith ZArith Bool.
 Import ListNotations.
 Require Import Bytes Mach RuleTables RuleDecode Mask RuleEncode Uapi UapiRule Tables TablesLift RuleTablesOk RuleWire RuleSpecWf.
-Require Import RuleValue Flags RuleBuild RuleBuildShape.
+Require Import RuleValue Flags RuleBuild RuleBuildShape RuleSwitches RuleSwitchesOk.
 Open Scope N_scope.
 
 (* every field and operator code of the rule package equals the UAPI constant for the
@@ -74,6 +74,12 @@ Theorem C06_one_triple_per_filter : forall li ac fs scs keys s d,
     list_code (sos li) = Some (w_flags d) /\ action_code (sos ac) = Some (w_action d).
 Proof. exact build_shape. Qed.
 
+(* the case lists the translator reads from the switch statements of rule/rule.go: Build, the decoder and the
+   printer agree on which fields carry strings and which carry uids / gids, and the exclude list admits the
+   fields the model admits (re-read from the source on every run) *)
+Theorem C06_switch_lists_agree : switch_lists_okb = true.
+Proof. exact switch_lists_ok. Qed.
+
 Theorem C06_mask_exact : forall l m' k, build_mask (repeat 0 64) l = Some m' -> (testbit_mask m' k = true <-> In k l).
 Proof. exact build_mask_exact. Qed.
 (* and a number beyond the mask is an error, never a bit somewhere else *)
@@ -86,5 +92,6 @@ Print Assumptions C06_wire_exact.
 Print Assumptions C06_accepted_rules_are_well_formed.
 Print Assumptions C06_accepted_rules_decode.
 Print Assumptions C06_one_triple_per_filter.
+Print Assumptions C06_switch_lists_agree.
 Print Assumptions C06_mask_exact.
 Print Assumptions C06_mask_range.
